@@ -70,6 +70,10 @@ def handlerArity : Handler → Nat
   | .newglossaryentry => 2
   | .parseGlsdefs => 2
   | .opaqueH _ => 0
+  | .readSed => 1
+  | .crefWarn => 0
+  | .cref _ _ => 2
+  | .crefrange _ _ => 3
 
 /-- arguments of which a handler takes the first or last token without a test
     (`args[1][0]`, `args[2][-1]`): they must be mandatory arguments, which are never empty -/
@@ -202,11 +206,14 @@ def Same (st st' : PState) : Prop := st'.latex = st.latex ∧ st'.nest = st.nest
 
 /-- Crash sites of the expander model (every place where the Python code could raise) that are
     NOT shown unreachable.  The two `opaque …` markers stand for code that is not modelled
-    (cleveref reads a `.sed` file with regular expressions); `cap_first` raises on an
-    empty TextToken: the only one the model can create is the title of a theorem declared with an
-    empty title, which is consumed by the main loop at once and never stored in the glossary —
-    an invariant about buffer *order* that the token-local bundle does not carry (open
-    obligation, tested on the implementation by C07).  `tex2txt_crashSites` states that the model crashes nowhere else. -/
+    (a module or handler the translator does not recognise; none in the current tables:
+    `C07_no_opaque_module_current`); `cap_first` raises on an
+    empty TextToken.  The model can create empty text tokens in five places (title of a theorem declared with an
+    empty title, `\\proof` without language settings, the empty default label of a plain `\\item`, the first half of an
+    error mark at the very end of the text, `\\verb||`); that none of them ever reaches `cap_first` needs an invariant
+    about buffer ORDER and positions that this token-local bundle does not carry — it is proved separately, by a second
+    induction on fuel: `C07_no_capfirst_crash` (Proofs/NoEmpty*.lean, Properties/NoEmptyStmt.lean).
+    `tex2txt_crashSites` states that the model crashes nowhere else. -/
 def allowedCrash : List String := [
   "opaque module (not modelled)",
   "opaque handler (not modelled)",
@@ -288,17 +295,20 @@ def SpecWork (fuel : Nat) : Prop :=
     (st.nest = 0 → latex.length = nroot) → (st.nest = 1 → st.latex.length = nroot) →
     Post (parserWork T fuel latex st) (fun r st' => G0 T nroot st' ∧ Same st st' ∧ OL T latex.length r)
 
-def langOnly (ts : List Tok) : Prop := ∀ t ∈ ts, isLang t = true ∧ t.txt = []
+/-- the tokens a module may inject behind its `\usepackage`: language tokens (babel) or the pinned
+    text tokens of an error mark (cleveref without the option 'poorman') -/
+def injOk (ts : List Tok) : Prop :=
+  ∀ t ∈ ts, (isLang t = true ∧ t.txt = []) ∨ (t.kind = .text ∧ t.fix = true)
 
 def SpecInit (fuel : Nat) : Prop :=
   ∀ (name : Str) (md : ModuleDef) (builtin : Bool) (options : List KeyVal) (position : Nat) (st : PState),
     G T nroot st → (∀ m ∈ md.macros ++ md.envs, macroToksOk T m = true) → (∀ e ∈ md.envs, envOk T e = true) →
-    Post (initPackage T fuel name md builtin options position st) (fun r st' => Good T nroot st st' ∧ langOnly r)
+    Post (initPackage T fuel name md builtin options position st) (fun r st' => Good T nroot st st' ∧ injOk r)
 
 def SpecModParams (fuel : Nat) : Prop :=
   ∀ (md : ModuleDef) (options : List KeyVal) (position : Nat) (st : PState),
     G T nroot st → (∀ m ∈ md.macros ++ md.envs, macroToksOk T m = true) → (∀ e ∈ md.envs, envOk T e = true) →
-    Post (modifyParameters T fuel md options position st) (fun r st' => Good T nroot st st' ∧ langOnly r)
+    Post (modifyParameters T fuel md options position st) (fun r st' => Good T nroot st st' ∧ injOk r)
 
 def kvOk (n : Nat) (kvs : List (Str × Option (List Tok))) : Prop :=
   ∀ kv ∈ kvs, ∀ ts, kv.2 = some ts → BL T n ts
